@@ -84,7 +84,9 @@ CHECKS = {
             "C12_attr_shape / C12_attr_ascii_identifier / C12_title_shape hold for every name (any code points), for every unicodedata.name oracle over the "
             "checked alphabet, on the alnum ranges and the reserved list the translator dumps on each run (closure of the reserved list under '_' is re-proved "
             "by computation).  Unambiguity and non-ASCII identifier validity are FALSE on the faithful model (C12_*_refuted) and recorded as findings K1-K4.  "
-            "Names.v is tied to the code by evaluating both mappings in Coq on thousands of code points/strings per run.",
+            "Names.v is tied to the code by evaluating both mappings in Coq on thousands of code points/strings per run.  Untitled schemas: Titles.v models statham/titles.py; "
+            "C12_autotitle_shape / _local / _nonempty / _class_name say what the automatic title of a schema position is (nearest pointer segment not looked through + Item/index suffixes) and that "
+            "_title_format turns it into a class name of the proved shape; tied by running _get_title_from_reference and the model on random references.",
             "full for what holds; the injectivity / non-ASCII / class-name-collision halves are recorded findings"),
     "C05": ("Coq theorems on Validate.build (no-value law for every element kind, never rejects, declared-member lemma, placeholder mechanism, and C05_omitted_exposed: an omitted declared property is present under its Python name with what its element's no-value call returns) + vm_compute correspondence of constructed results on all subsets of supplied properties + direct oracle",
             "C05_no_value_law and C05_no_value_never_rejects hold for every element and model class; C05_omitted_exposed composes the placeholder mechanism end to end: for every Element / model class "
